@@ -125,6 +125,44 @@ func (p *Program) runScan(sc *Scan) *UnitResult {
 		}
 		return res
 	}
+	if sc.Kind == "defercalls" {
+		// defercalls <pkg>: <function>=<callee> ... - each listed function has a defer statement that calls <callee>
+		// directly (so the call also runs when a panic unwinds through the function)
+		for _, want := range sc.Allowed {
+			eq := strings.LastIndex(want, "=")
+			if eq < 0 {
+				offenders = append(offenders, want+" (expected <function>=<callee>)")
+				continue
+			}
+			fname, callee := want[:eq], want[eq+1:]
+			ok := false
+			for key, fn := range p.fnByKey {
+				if fn.Pkg == nil || fn.Pkg.Pkg.Path() != sc.Pkg || strings.TrimPrefix(shortKey(key), fn.Pkg.Pkg.Name()+".") != fname {
+					continue
+				}
+				for _, b := range fn.Blocks {
+					for _, in := range b.Instrs {
+						if d, isd := in.(*ssa.Defer); isd {
+							if sc := d.Call.StaticCallee(); sc != nil && sc.Name() == callee {
+								ok = true
+							}
+						}
+					}
+				}
+			}
+			if !ok {
+				offenders = append(offenders, want)
+			}
+		}
+		if len(offenders) == 0 && len(sc.Allowed) > 0 {
+			o.Status = "unsat"
+			o.Output = fmt.Sprintf("all %d listed functions of %s defer the named call", len(sc.Allowed), sc.Pkg)
+		} else {
+			o.Status = "sat"
+			o.Output = "functions that do not (or no longer) defer the named call: " + strings.Join(offenders, ", ")
+		}
+		return res
+	}
 	if sc.Kind == "assertorder" {
 		// assertorder <function>: A B - in <function>, every comma-ok type test of a value against B (a case of a type
 		// switch or a v, ok := x.(B)) is reached only after the same value failed the test against A: values that are
